@@ -353,7 +353,7 @@ int convert_msa_to_internal(struct msa* msa, int type)
         for(i = 0; i <  msa->numseq;i++){
                 seq = msa->sequences[i];
                 for(j =0 ; j < seq->len;j++){
-                        if(t[(int) seq->seq[j]] == -1){
+                        if((unsigned char) seq->seq[j] > 127 || t[(int) seq->seq[j]] == -1){
                                 WARNING_MSG("there should be no character not matching the alphabet");
                                 WARNING_MSG("offending character: >>>%c<<<", seq->seq[j]);
                                 /* exit(0); */
@@ -486,7 +486,9 @@ int kalign_arr_to_msa(char** input_sequences, int* len, int numseq,struct msa** 
 
                 }
                 for(int j = 0; j < len[i];j++){
-                        msa->letter_freq[(int)input_sequences[i][j]]++;
+                        if((unsigned char)input_sequences[i][j] < 128){
+                                msa->letter_freq[(unsigned char)input_sequences[i][j]]++;
+                        }
                         seq->seq[j] = input_sequences[i][j];
                 }
                 seq->seq[len[i]] = 0;
